@@ -2,6 +2,7 @@
 calculate_centroids, abs_norm_dot_product, wirelength, spectral_layout_die; tools/spectral/spectral.py:
 Spectral.spectral_layout; frame/netlist/module.py: Module.recenter_rectangles)."""
 import math
+import os
 import random
 from fractions import Fraction as F
 
@@ -1841,12 +1842,12 @@ def run(ctx, out, replay=None):
     global SAMPLE_ALL
     quick = ctx.quick()
     SAMPLE_ALL = not quick
-    look_struct = [1, 1, 6, 1] if quick else [3, 2, 17, 3]      # structured cases: the degenerate paths are taken early
-    look_some = [1, 1, 5, 1] if quick else [2, 1, 9, 2]         # every 6th (thorough: 2nd) of the random ones
+    look_struct = [1, 1, 6, 1] if quick else [2, 1, 9, 2]       # structured cases: the degenerate paths are taken early
+    look_some = [1, 1, 5, 1] if quick else [1, 1, 7, 1]         # every 8th (thorough: 3rd) of the random ones
     look_none = [0, 0, 0, 0]
-    nds = 12 if quick else 120          # structured graphs / starts: spectral_layout_die
-    nls = 15 if quick else 160          # ... Spectral.spectral_layout
-    ncs = 3 if quick else 30            # ... several calls on one object
+    nds = 12 if quick else 60           # structured graphs / starts: spectral_layout_die
+    nls = 15 if quick else 90           # ... Spectral.spectral_layout
+    ncs = 3 if quick else 12            # ... several calls on one object
     nk = 1800 if quick else 24000
     nd = 12 if quick else 80
     nl = 24 if quick else 180
@@ -1909,7 +1910,7 @@ def run(ctx, out, replay=None):
         heavy.append(case)
     for i in range(ncli):
         heavy.append(gen_cli(rng, repeated=(i % 3 == 1), struct=(i % 3 == 2)))
-    every = 8 if quick else 2
+    every = 8 if quick else 3
     for i, case in enumerate(heavy):
         case["look"] = look_struct if case.get("struct") else look_some if i % every == 0 else look_none
     mon = {"calls": 0, "tiny_entries": 0, "bound_broken": 0, "worst_excess": 0.0, "returned": 0, "raised": {}}
@@ -1950,7 +1951,7 @@ def run(ctx, out, replay=None):
                 ("/struct:" + c["struct"].split("/")[0] if c.get("struct") else "") + ("/pins" if c.get("pins") else ""))
 
     agreements, timing = 0, {"implementation_on_layouts": t_pre}
-    for name, batch, shard, shr in (("corpus", first, 1, shrink), ("kernels", light, 250, shrink), ("layouts", heavy, 1, None)):
+    for name, batch, shard, shr in (("corpus", first, 3, shrink), ("kernels", light, 250, shrink), ("layouts", heavy, 2, None)):
         if not batch:
             continue
         t0 = time.time()
